@@ -99,7 +99,7 @@ func C10(tier string) int {
 // C12: the file format stays version 2 (three-way agreement decoder / API / model on every explored state).
 func C12(tier string) int {
 	return RunHX(HXCheck{
-		Prop: "C12", Level: "model_checking", Scopes: []string{"c12-flat", "c12-life", "c12-nested", "c12-fault"},
+		Prop: "C12", Level: "model_checking", Scopes: []string{"c12-flat", "c12-backup", "c12-life", "c12-nested", "c12-fault"},
 		Rule:        "breadth-first enumeration of all programs within the bound; at every transaction boundary the file is decoded by boltfmt (explicit little-endian offsets of the published version-2 layout, own FNV-1a) and its logical content must equal the reference model (which the API dump is compared with as well), both meta pages must validate with the right slot/txid parity, page size and flags; plus the golden-file corpus of the pinned build",
 		Assumptions: []string{"boltfmt shares no code with bbolt", "golden corpus: /verif/golden, written once by the pinned build (./run golden)"},
 		Extra:       goldenCheck,
